@@ -72,6 +72,9 @@ def plan(tier, seed):
     # one update()/new() call that carries the message length across 2^32 BITS (512 MiB); thorough: across 2^32 BYTES too
     for i, g in enumerate((["sha256", "md5", "sha3_256"], ["sha224", "sha1", "blake2b"], ["sha512", "sha384", "blake2s"])):
         specs.append(dict(kind="huge", rep=0, algos=g, sizes=[(1 << 29) + 200], timeout_s=900))
+    # wrong tags at volume through verify(): a comparison that looks at b bits accepts one in 2^b
+    for macs in (["hmac", "cmac"], ["poly1305", "kmac"], ["blake2b", "blake2s"]):
+        specs.append(dict(kind="volume", rep=0, macs=macs, attempts=1000000 if q else 8000000, timeout_s=900 if q else 2400))
     if not q:
         for g in (["sha256"], ["sha1"], ["sha512"], ["md5"]):
             specs.append(dict(kind="huge", rep=1, algos=g, sizes=[(1 << 32) + 200], timeout_s=2400))
@@ -88,6 +91,8 @@ def finalize(agg, tier):
         for name in ("big:1MiB", "big:k12-256-chunks"):
             if not c.get(name):
                 out.append("deciding counter %s is zero" % name)
+    if not c.get("volume_forgeries"):
+        out.append("no volume of wrong tags was shown to verify()")
     if not c.get("huge_cases"):
         out.append("no message longer than 2^29 bytes was hashed in a single call")
     if not c.get("decoy_objects"):
@@ -545,6 +550,62 @@ def hash_grid_and_random(spec, ctx, H, names, extra, big=True):
         data, gen = mk_msg(rng, n)
         check_digest(ctx, A, data, gen, rand_segs(rng, n, b), rng, (A["name"], "rand", lencls(n, b)))
         ctx.count("random:" + A["name"])
+
+
+def w_volume(spec, ctx, H):
+    """One MAC object per algorithm, the true tag known from the model-checked digest(); many wrong tags of the right length
+    (random, 1-3 bit flips, one byte replaced, true prefix + random tail) are shown to verify().  None may be accepted, and
+    the true tag must still be accepted afterwards."""
+    from Crypto.Hash import HMAC, CMAC, Poly1305, KMAC128, BLAKE2b, BLAKE2s, SHA256
+    from Crypto.Cipher import AES
+    rng = ctx.rng
+    key, msg = rng.randbytes(32), rng.randbytes(77)
+    makers = {"hmac": lambda: HMAC.new(key, msg, SHA256), "cmac": lambda: CMAC.new(key[:16], msg, ciphermod=AES),
+              "poly1305": lambda: Poly1305.new(key=key, nonce=bytes(16), cipher=AES, data=msg),
+              "kmac": lambda: KMAC128.new(key=key, data=msg, mac_len=32),
+              "blake2b": lambda: BLAKE2b.new(digest_bytes=32, key=key, data=msg), "blake2s": lambda: BLAKE2s.new(digest_bytes=16, key=key[:16], data=msg)}
+    for name in spec["macs"]:
+        o = makers[name]()
+        tag = o.digest()
+        L = len(tag)
+        accepted = []
+        n = spec["attempts"]
+        for i in range(n):
+            r = i & 3
+            if r == 0:
+                t = rng.randbytes(L)
+            elif r == 1:
+                t = bytearray(tag)
+                for _ in range(1 + (i >> 2) % 3):
+                    t[rng.randrange(L)] ^= 1 << rng.randrange(8)
+                t = bytes(t)
+            elif r == 2:
+                t = bytearray(tag)
+                t[rng.randrange(L)] = rng.randrange(256)
+                t = bytes(t)
+            else:
+                t = (tag[:rng.randrange(L)] + rng.randbytes(L))[:L]
+            if t == tag:
+                continue
+            try:
+                o.verify(t)
+                accepted.append(t)
+            except ValueError:
+                pass
+        ok = True
+        try:
+            o.verify(tag)
+        except ValueError:
+            ok = False
+        ctx.ev(n)
+        ctx.count("volume_forgeries", n)
+        ctx.count("volume_forgeries:" + name, n)
+        ctx.case((name, "volume"))
+        ctx.check(ok, "accept:%s:true-tag-rejected" % name, "the true tag was rejected by an object that had refused wrong tags before", {"mac": name})
+        ctx.check(not accepted, "accept:%s:wrong-tag-accepted:volume" % name,
+                  "verify() accepted a tag that is not the MAC of the message (one of many wrong tags of the right length)",
+                  lambda: {"mac": name, "key": key.hex(), "msg": msg.hex(), "true_tag": tag.hex(), "accepted": len(accepted),
+                           "accepted_tags": [t.hex() for t in accepted[:5]], "wrong_tags_shown": n})
 
 
 def w_huge(spec, ctx, H):
